@@ -3,7 +3,9 @@
   what follows a form does not influence how the form is read.
 -/
 import Edn.Proofs.ReReadAux1
-import Edn.Proofs.ReReadAuxLeafStub
+import Edn.Proofs.ReReadAux2
+import Edn.Proofs.ReReadAux4
+import Edn.Proofs.ReReadAux5
 import Edn.Proofs.RangesAux4
 
 namespace Edn.Proofs
@@ -171,5 +173,600 @@ theorem rsStep_cut (ctx : Ctx) {RV : RVT} {RS : RST} (pV : PV RV) (pS : PS RS) (
             intro x hl; simp only [] at hl; omega
           repeat' split
           all_goals first | trivial | exact hv _
+
+/-! ## maps -/
+
+/-- the key stored by the map loop -/
+def qkey (ns : Option Bytes) (k : Val) : Val :=
+  match ns with
+  | some n => qualifyKey n k
+  | none => k
+
+theorem qkey_shiftV (ns : Option Bytes) (j : Nat) (k : Val) : qkey ns (shiftV j k) = shiftV j (qkey ns k) := by
+  cases ns with
+  | none => rfl
+  | some n => simp only [qkey, qualifyKey_shiftV]
+
+theorem rmStep_cut (ctx : Ctx) {RV : RVT} {RM : RMT} (pV : PV RV) (pM : PM RM) (kV : KV RV) (kM : KM RM)
+    (d : Nat) (dm : Bool) (start : Nat) (ns : Option Bytes) (t r : Bytes) (cl : List Call) (ks vs : List Val) :
+    CutRes r cl (rmStep ctx RV RM d dm (start + r.length) ns { rest := t ++ r, calls := cl } (shiftL r.length ks)
+        (shiftL r.length vs))
+      (rmStep ctx RV RM d dm start ns { rest := t, calls := cl } ks vs) := by
+  generalize hsm : rmStep ctx RV RM d dm start ns { rest := t, calls := cl } ks vs = small
+  unfold rmStep at hsm ⊢
+  simp only [] at hsm ⊢
+  have k1 := kV (d + 1) dm t r cl
+  have p1 := pV (d + 1) dm { rest := t ++ r, calls := cl }
+  cases hr : RV (d + 1) dm { rest := t ++ r, calls := cl } with
+  | ok k st' =>
+    rw [hr] at k1 p1; simp only [CutRes] at k1; simp only [Progress] at p1
+    simp only []
+    have p2 := pV (d + 1) dm st'
+    cases hr2 : RV (d + 1) dm st' with
+    | ok v st'' =>
+      rw [hr2] at p2; simp only [Progress] at p2
+      simp only []
+      change CutRes r cl (RM d dm (start + r.length) ns st'' (qkey ns k :: shiftL r.length ks)
+        (v :: shiftL r.length vs)) small
+      apply CutRes.of_le
+      intro hb
+      have h3 := pM d dm (start + r.length) ns st'' (qkey ns k :: shiftL r.length ks) (v :: shiftL r.length vs)
+      obtain ⟨t1, k1v, rfl, hs1, rfl⟩ := k1 (by omega)
+      have k2 := kV (d + 1) dm t1 r cl
+      rw [hr2] at k2; simp only [CutRes] at k2
+      obtain ⟨t2, v2, rfl, hs2, rfl⟩ := k2 (by omega)
+      rw [hs1] at hsm; simp only [] at hsm
+      rw [hs2] at hsm; simp only [] at hsm
+      subst hsm
+      have := kM d dm start ns t2 r cl (qkey ns k1v :: ks) (v2 :: vs)
+      rw [shiftL_cons, shiftL_cons, ← qkey_shiftV] at this
+      exact this
+    | err e st'' =>
+      simp only []
+      split <;> trivial
+    | closer st'' => trivial
+  | err e st' =>
+    simp only []
+    split <;> trivial
+  | closer st' =>
+    rw [hr] at k1; simp only [CutRes] at k1
+    simp only []
+    cases hs : st'.rest with
+    | nil => trivial
+    | cons c r2 =>
+      simp only []
+      by_cases hc : (c != 0x7D) = true
+      · simp only [hc, ↓reduceIte]; trivial
+      · simp only [hc, Bool.false_eq_true, ↓reduceIte]
+        by_cases hle : r.length ≤ r2.length
+        · obtain ⟨t1, hst, hs1⟩ := k1 (by rw [hs]; simp only [List.length_cons]; omega)
+          subst hst
+          simp only [] at hs
+          obtain ⟨t2, rfl, rfl⟩ := cons_append_split hs hle
+          rw [hs1] at hsm; simp only [hc, Bool.false_eq_true, ↓reduceIte] at hsm
+          have hpos : ctx.pos (t2 ++ r) = ctx.pos t2 + r.length := by simp [Ctx.pos]
+          rw [← shiftL_reverse, hasDuplicates_shiftL]
+          simp only []
+          cases hd : hasDuplicates ctx.cfg ks.reverse with
+          | mk dup ys =>
+            rw [hd] at hsm
+            simp only [] at hsm ⊢
+            cases dup with
+            | true => simp only [↓reduceIte]; trivial
+            | false =>
+              simp only [Bool.false_eq_true, ↓reduceIte] at hsm ⊢
+              subst hsm
+              intro _
+              exact ⟨t2, _, rfl, rfl, by rw [shiftV_map, hpos, shiftL_reverse]⟩
+        · have hv : ∀ (x : Val), CutRes r cl (.ok x { st' with rest := r2 }) small := by
+            intro x hl; simp only [] at hl; omega
+          repeat' split
+          all_goals first | trivial | exact hv _
+
+/-! ## namespaced maps, tagged literals, metadata -/
+
+theorem shiftV_eq_kw {k : Nat} {v : Val} {h : Hdr} {ns : Option Bytes} {nm : Bytes}
+    (hv : shiftV k v = .kw h ns nm) : ∃ h', v = .kw h' ns nm := by
+  cases v <;> simp [shiftV, Val.setHdr] at hv
+  case kw h' ns' nm' => exact ⟨h', by rw [hv.2.1, hv.2.2]⟩
+
+theorem shiftV_eq_sym {k : Nat} {v : Val} {h : Hdr} {md : Option Val} {ns : Option Bytes} {nm : Bytes}
+    (hv : shiftV k v = .sym h md ns nm) : ∃ h' md', v = .sym h' md' ns nm := by
+  cases v <;> simp [shiftV, Val.setHdr] at hv
+  case sym h' md' ns' nm' => exact ⟨h', md', by rw [hv.2.2.1, hv.2.2.2]⟩
+
+theorem rnStep_cut (ctx : Ctx) {RV : RVT} {RM : RMT} (pV : PV RV) (pM : PM RM) (kV : KV RV) (kM : KM RM)
+    (d : Nat) (dm : Bool) (start : Nat) (t r : Bytes) (cl : List Call) :
+    CutRes r cl (rnStep ctx RV RM d dm (start + r.length) { rest := t ++ r, calls := cl })
+      (rnStep ctx RV RM d dm start { rest := t, calls := cl }) := by
+  generalize hsm : rnStep ctx RV RM d dm start { rest := t, calls := cl } = small
+  unfold rnStep at hsm ⊢
+  have k1 := kV d dm t r cl
+  have p1 := pV d dm { rest := t ++ r, calls := cl }
+  cases hr : RV d dm { rest := t ++ r, calls := cl } with
+  | closer st' =>
+    rw [hr] at k1; simp only [CutRes] at k1 ⊢
+    intro hl
+    obtain ⟨t1, rfl, hs1⟩ := k1 hl
+    rw [hs1] at hsm; subst hsm
+    exact ⟨t1, rfl, rfl⟩
+  | err e st' => trivial
+  | ok kwv st' =>
+    rw [hr] at k1 p1; simp only [CutRes] at k1; simp only [Progress] at p1
+    simp only []
+    split
+    · rename_i h name
+      have hws := skipWs_length_le' st'.rest
+      cases hs : skipWs st'.rest with
+      | nil => trivial
+      | cons c rr =>
+        simp only []
+        rw [hs] at hws; simp only [List.length_cons] at hws
+        by_cases hc : (c == 0x7B) = true
+        · simp only [hc, ↓reduceIte]
+          apply CutRes.of_le
+          intro hb
+          have h3 := pM d dm (start + r.length) (some name) { rest := rr, calls := st'.calls } [] []
+          simp only [] at h3
+          obtain ⟨t1, v1, rfl, hs1, hv1⟩ := k1 (by omega)
+          obtain ⟨h1, rfl⟩ := shiftV_eq_kw hv1
+          simp only [] at hs
+          have hcut := skipWs_cut t1 r (by rw [hs]; simp only [List.length_cons]; omega)
+          rw [hs] at hcut
+          obtain ⟨t2, ht2, rfl⟩ := cons_append_split hcut.symm (by omega)
+          rw [hs1] at hsm; simp only [ht2, hc, ↓reduceIte] at hsm
+          subst hsm
+          have := kM d dm start (some name) t2 r cl [] []
+          rw [shiftL_nil] at this
+          exact this
+        · simp only [hc, Bool.false_eq_true, ↓reduceIte]; trivial
+    · trivial
+
+theorem rtStep_cut (ctx : Ctx) (hreg : ctx.opts.registry = none) {RV : RVT} (pV : PV RV) (kV : KV RV)
+    (d : Nat) (dm : Bool) (start : Nat) (t r : Bytes) (cl : List Call) :
+    CutRes r cl (rtStep ctx RV d dm (start + r.length) { rest := t ++ r, calls := cl })
+      (rtStep ctx RV d dm start { rest := t, calls := cl }) := by
+  generalize hsm : rtStep ctx RV d dm start { rest := t, calls := cl } = small
+  unfold rtStep at hsm ⊢
+  simp only [hreg] at hsm ⊢
+  cases htr : t ++ r with
+  | nil => trivial
+  | cons c rest0 =>
+    simp only []
+    by_cases hws : (c == 0x20 || c == 0x09 || c == 0x0A || c == 0x0D || c == 0x2C) = true
+    · simp only [hws, ↓reduceIte]; trivial
+    · simp only [hws, Bool.false_eq_true, ↓reduceIte]
+      rw [← htr]
+      have p1 := readIdentifier_progress' ctx { rest := t ++ r, calls := cl }
+      cases hr : readIdentifier ctx { rest := t ++ r, calls := cl } with
+      | closer st' => exact absurd hr (readIdentifier_not_closer ctx _ _)
+      | err e st' => trivial
+      | ok tagv st' =>
+        rw [hr] at p1; simp only [Progress] at p1
+        simp only []
+        split
+        · rename_i hh hmd hns hnm
+          have p2 := pV (d + 1) dm st'
+          cases hr2 : RV (d + 1) dm st' with
+          | closer st'' => trivial
+          | err e st'' => trivial
+          | ok v st'' =>
+            rw [hr2] at p2; simp only [Progress] at p2
+            simp only []
+            intro hl
+            obtain ⟨t1, v1, rfl, hs1, hv1⟩ := readIdentifier_cut ctx t r cl _ _ hr (by omega)
+            obtain ⟨h1, md1, rfl⟩ := shiftV_eq_sym hv1
+            have k2 := kV (d + 1) dm t1 r cl
+            rw [hr2] at k2; simp only [CutRes] at k2
+            obtain ⟨t2, v2, rfl, hs2, rfl⟩ := k2 hl
+            simp only [List.length_append] at p1
+            have htne : t ≠ [] := by
+              intro h0; subst h0; simp only [List.length_nil] at p1; omega
+            obtain ⟨c', t0, rfl⟩ := List.exists_cons_of_ne_nil htne
+            simp only [List.cons_append, List.cons.injEq] at htr
+            obtain ⟨rfl, -⟩ := htr
+            simp only [hws, Bool.false_eq_true, ↓reduceIte] at hsm
+            rw [hs1] at hsm; simp only [] at hsm
+            rw [hs2] at hsm; simp only [] at hsm
+            subst hsm
+            refine ⟨t2, _, rfl, rfl, ?_⟩
+            rw [shiftV_tagged]
+            have e1 : slice (c' :: (t0 ++ r)) (t1 ++ r) = slice (c' :: t0) t1 := slice_append_right (c' :: t0) t1 r
+            simp only [Ctx.pos, List.length_append, List.cons_append]
+            rw [e1]
+        · trivial
+
+theorem rmeStep_cut (ctx : Ctx) {RV : RVT} (pV : PV RV) (nV : NV RV) (kV : KV RV)
+    (d : Nat) (dm : Bool) (start : Nat) (t r : Bytes) (cl : List Call) :
+    CutRes r cl (rmeStep ctx RV d dm (start + r.length) { rest := t ++ r, calls := cl })
+      (rmeStep ctx RV d dm start { rest := t, calls := cl }) := by
+  generalize hsm : rmeStep ctx RV d dm start { rest := t, calls := cl } = small
+  unfold rmeStep at hsm ⊢
+  simp only [] at hsm ⊢
+  have k1 := kV (d + 1) dm t r cl
+  have p1 := pV (d + 1) dm { rest := t ++ r, calls := cl }
+  cases hr : RV (d + 1) dm { rest := t ++ r, calls := cl } with
+  | closer st' => trivial
+  | err e st' => trivial
+  | ok m st' =>
+    rw [hr] at k1 p1; simp only [CutRes] at k1; simp only [Progress] at p1
+    simp only []
+    cases hme : metaEntries m with
+    | none => trivial
+    | some p =>
+      obtain ⟨nks, nvs⟩ := p
+      simp only []
+      have p2 := pV (d + 1) dm st'
+      cases hr2 : RV (d + 1) dm st' with
+      | closer st'' => trivial
+      | err e st'' => trivial
+      | ok form st'' =>
+        rw [hr2] at p2; simp only [Progress] at p2
+        simp only []
+        by_cases hmt : (!form.metaTarget) = true
+        · simp only [hmt, ↓reduceIte]; trivial
+        · simp only [hmt, Bool.false_eq_true, ↓reduceIte]
+          intro hl
+          obtain ⟨t1, m1, rfl, hs1, rfl⟩ := k1 (by omega)
+          have k2 := kV (d + 1) dm t1 r cl
+          rw [hr2] at k2; simp only [CutRes] at k2
+          obtain ⟨t2, form1, rfl, hs2, rfl⟩ := k2 hl
+          rw [metaEntries_shiftV] at hme
+          cases hme1 : metaEntries m1 with
+          | none => rw [hme1] at hme; cases hme
+          | some p1 =>
+            obtain ⟨nks1, nvs1⟩ := p1
+            rw [hme1] at hme
+            simp only [Option.map_some, Option.some.injEq, Prod.mk.injEq] at hme
+            obtain ⟨rfl, rfl⟩ := hme
+            rw [metaTarget_shiftV] at hmt
+            rw [hs1] at hsm; simp only [hme1] at hsm
+            rw [hs2] at hsm; simp only [hmt, Bool.false_eq_true, ↓reduceIte] at hsm
+            subst hsm
+            refine ⟨t2, _, rfl, rfl, ?_⟩
+            have hns : (attachMeta ctx.cfg m1 form1 nks1 nvs1).hdr.synth = false := by
+              rw [attachMeta_eq, hdr_setMd]; exact nV _ _ _ _ _ hs2
+            rw [shiftV_setHdr, shiftHdr_with_s hns, attachMeta_shiftV, hdr_shiftV]
+
+/-! ## the dispatch -/
+
+theorem readSymbolic_one (ctx : Ctx) (c : UInt8) (cl : List Call) (v : Val) (st' : St) :
+    readSymbolic ctx { rest := [c], calls := cl } ≠ .ok v st' := by
+  intro h
+  unfold readSymbolic at h
+  have e1 : startsWith ([] : Bytes) (strBytes "Inf") = false := by decide +kernel
+  have e2 : startsWith ([] : Bytes) (strBytes "-Inf") = false := by decide +kernel
+  have e3 : startsWith ([] : Bytes) (strBytes "NaN") = false := by decide +kernel
+  simp only [List.drop_succ_cons, List.drop_nil, e1, e2, e3, Bool.false_eq_true, ↓reduceIte] at h
+  cases h
+
+/-- a signed number consumes its first digit -/
+theorem readNumberRes_sign_strict (ctx : Ctx) (c nx : UInt8) (r' : Bytes) (cl : List Call) (v : Val) (st' : St)
+    (hs : (c == 0x2B || c == 0x2D) = true) (hd : is09 nx = true)
+    (h : readNumberRes ctx { rest := c :: nx :: r', calls := cl } = .ok v st') :
+    st'.rest.length < (nx :: r').length := by
+  unfold readNumberRes at h
+  simp only [] at h
+  have hb := readNumberBody_prog ctx.cfg (c :: nx :: r') (peek (c :: nx :: r') == 0x2D) (adv (c :: nx :: r')) hd
+  have he := readNumber_eq ctx.cfg (c :: nx :: r')
+  have : (peek (c :: nx :: r') == 0x2D || peek (c :: nx :: r') == 0x2B) = true := by
+    simp only [peek, List.headD_cons]
+    rw [Bool.or_comm]; exact hs
+  rw [this] at he
+  simp only [↓reduceIte] at he
+  rw [he] at h
+  cases hb' : readNumberBody ctx.cfg (c :: nx :: r') (peek (c :: nx :: r') == 0x2D) (adv (c :: nx :: r')) with
+  | ok x rest =>
+    rw [hb'] at h hb
+    simp only [Res.ok.injEq] at h
+    obtain ⟨-, rfl⟩ := h
+    simp only [numProg, adv, List.tail_cons] at hb
+    exact hb
+  | err cur =>
+    rw [hb'] at h
+    cases h
+
+theorem rvStep_cut (ctx : Ctx) {RV : RVT} {RS : RST} {RM : RMT} {RN RT RMe : R4T}
+    (pV : PV RV) (pS : PS RS) (pN : P4 RN) (sN : SN4 RN) (kV : KV RV) (kS : KS RS) (kM : KM RM) (kN : K4 RN) (kT : K4 RT) (kMe : K4 RMe)
+    (d : Nat) (dm : Bool) (cl : List Call) (c : UInt8) (cs r : Bytes) :
+    CutRes r cl (rvStep ctx RV RS RM RN RT RMe d dm cl c (cs ++ r)) (rvStep ctx RV RS RM RN RT RMe d dm cl c cs) := by
+  unfold rvStep
+  simp only []
+  have hpos : ctx.pos (c :: (cs ++ r)) = ctx.pos (c :: cs) + r.length := by
+    simp only [Ctx.pos, List.length_cons, List.length_append]; omega
+  rw [hpos]
+  obtain ⟨c1, c2, c3, c4, c5⟩ := leaf_not_closer ctx { rest := (c :: cs) ++ r, calls := cl }
+  have lS : CutRes r cl (readString ctx { rest := c :: (cs ++ r), calls := cl }) (readString ctx { rest := c :: cs, calls := cl }) :=
+    leaf_cutRes (L := readString ctx) (t := c :: cs) c1 (fun v st' h hl => readString_cut ctx (c :: cs) r cl v st' h hl)
+  have lC : CutRes r cl (readCharacter ctx { rest := c :: (cs ++ r), calls := cl }) (readCharacter ctx { rest := c :: cs, calls := cl }) :=
+    leaf_cutRes (L := readCharacter ctx) (t := c :: cs) c2
+      (fun v st' h hl => readCharacter_cut ctx (c :: cs) r cl v st' h hl)
+  have lI : CutRes r cl (readIdentifier ctx { rest := c :: (cs ++ r), calls := cl }) (readIdentifier ctx { rest := c :: cs, calls := cl }) :=
+    leaf_cutRes (L := readIdentifier ctx) (t := c :: cs) c3 (fun v st' h hl => readIdentifier_cut ctx (c :: cs) r cl v st' h hl)
+  have lY : CutRes r cl (readSymbolic ctx { rest := c :: (cs ++ r), calls := cl }) (readSymbolic ctx { rest := c :: cs, calls := cl }) :=
+    leaf_cutRes (L := readSymbolic ctx) (t := c :: cs) c4 (fun v st' h hl => readSymbolic_cut ctx (c :: cs) r cl v st' h hl)
+  have lN : CutRes r cl (readNumberRes ctx { rest := c :: (cs ++ r), calls := cl }) (readNumberRes ctx { rest := c :: cs, calls := cl }) :=
+    leaf_cutRes (L := readNumberRes ctx) (t := c :: cs) c5
+      (fun v st' h hl => readNumberRes_cut ctx (c :: cs) r cl v st' h hl)
+  cases hdisp : dispatch ctx.cfg c with
+  | string => exact lS
+  | character => exact lC
+  | listOpen =>
+    simp only []
+    split
+    · trivial
+    · have := kS d dm 0 (ctx.pos (c :: cs)) cs r cl []
+      rw [shiftL_nil] at this; exact this
+  | vectorOpen =>
+    simp only []
+    split
+    · trivial
+    · have := kS d dm 1 (ctx.pos (c :: cs)) cs r cl []
+      rw [shiftL_nil] at this; exact this
+  | mapOpen =>
+    simp only []
+    split
+    · trivial
+    · have := kM d dm (ctx.pos (c :: cs)) none cs r cl [] []
+      rw [shiftL_nil] at this; exact this
+  | hash =>
+    simp only []
+    cases cs with
+    | nil =>
+      simp only [List.nil_append]
+      cases r with
+      | nil => exact kT d dm (ctx.pos [c]) [] [] cl
+      | cons nx r' =>
+        simp only []
+        split
+        · -- `##…` would need two bytes of the token
+          cases hrs : readSymbolic ctx { rest := c :: nx :: r', calls := cl } with
+          | ok v st' =>
+            intro hl
+            obtain ⟨t', v', -, hsm, -⟩ := readSymbolic_cut ctx [c] (nx :: r') cl v st' hrs hl
+            exact absurd hsm (readSymbolic_one ctx c cl _ _)
+          | closer st' => rw [List.cons_append, List.nil_append, hrs] at c4; cases c4
+          | err e st' => trivial
+        split
+        · trivial
+        split
+        · exact CutRes.vac_lt (by
+            have := pS d dm 2 (ctx.pos [c] + (nx :: r').length) { rest := r', calls := cl } []
+            simp only [List.length_cons] at this ⊢; omega)
+        split
+        · have p1 := pV (d + 1) true { rest := r', calls := cl }
+          cases hr1 : RV (d + 1) true { rest := r', calls := cl } with
+          | ok v1 st1 =>
+            rw [hr1] at p1; simp only [Progress] at p1
+            simp only []
+            exact CutRes.vac_lt (by
+              have := (pV d dm st1).st_le
+              simp only [List.length_cons] at this ⊢; omega)
+          | closer st1 => trivial
+          | err e st1 => trivial
+        split
+        · cases hrn : RN d dm (ctx.pos [c] + (nx :: r').length) { rest := nx :: r', calls := cl } with
+          | ok v st' =>
+            intro hl
+            have := sN _ _ _ _ _ _ hrn
+            simp only [] at this; omega
+          | closer st' =>
+            intro hl
+            have := pN d dm (ctx.pos [c] + (nx :: r').length) { rest := nx :: r', calls := cl }
+            rw [hrn] at this
+            simp only [Res.st] at this
+            omega
+          | err e st' => trivial
+        · have := kT d dm (ctx.pos [c]) [] (nx :: r') cl
+          simp only [List.nil_append] at this
+          exact this
+    | cons nx cs' =>
+      simp only [List.cons_append]
+      split
+      · exact lY
+      split
+      · trivial
+      split
+      · have := kS d dm 2 (ctx.pos (c :: nx :: cs')) cs' r cl []
+        rw [shiftL_nil] at this; exact this
+      split
+      · have k1 := kV (d + 1) true cs' r cl
+        have p1 := pV (d + 1) true { rest := cs' ++ r, calls := cl }
+        cases hr1 : RV (d + 1) true { rest := cs' ++ r, calls := cl } with
+        | ok v1 st1 =>
+          rw [hr1] at k1 p1; simp only [CutRes] at k1; simp only [Progress] at p1
+          simp only []
+          apply CutRes.of_le
+          intro hb
+          have := (pV d dm st1).st_le
+          obtain ⟨t1, v1', rfl, hs1, -⟩ := k1 (by omega)
+          rw [hs1]
+          simp only []
+          exact kV d dm t1 r cl
+        | closer st1 => trivial
+        | err e st1 => trivial
+      split
+      · exact kN d dm (ctx.pos (c :: nx :: cs')) (nx :: cs') r cl
+      · exact kT d dm (ctx.pos (c :: nx :: cs')) (nx :: cs') r cl
+  | sign =>
+    simp only []
+    have hsg := dispatch_sign hdisp
+    cases cs with
+    | nil =>
+      simp only [List.nil_append]
+      cases r with
+      | nil => exact lI
+      | cons nx r' =>
+        simp only []
+        split
+        · rename_i hnx
+          cases hrn : readNumberRes ctx { rest := c :: nx :: r', calls := cl } with
+          | ok v st' =>
+            intro hl
+            have := readNumberRes_sign_strict ctx c nx r' cl v st' hsg hnx hrn
+            omega
+          | closer st' => rw [List.cons_append, List.nil_append, hrn] at c5; cases c5
+          | err e st' => trivial
+        · exact lI
+    | cons nx t0 =>
+      simp only [List.cons_append]
+      split
+      · exact lN
+      · exact lI
+  | digit => exact lN
+  | delimiter =>
+    simp only []
+    split
+    · trivial
+    · intro _
+      exact ⟨c :: cs, rfl, rfl⟩
+  | metadata =>
+    simp only []
+    split
+    · trivial
+    · exact kMe d dm (ctx.pos (c :: cs)) cs r cl
+  | identifier => exact lI
+
+theorem rvOuter_cut (ctx : Ctx) {RV : RVT} {RS : RST} {RM : RMT} {RN RT RMe : R4T}
+    (pV : PV RV) (pS : PS RS) (pM : PM RM) (pN : P4 RN) (pT : P4 RT) (pMe : P4 RMe) (sN : SN4 RN)
+    (kV : KV RV) (kS : KS RS) (kM : KM RM) (kN : K4 RN) (kT : K4 RT) (kMe : K4 RMe)
+    (d : Nat) (dm : Bool) (t r : Bytes) (cl : List Call) :
+    CutRes r cl (rvOuter ctx RV RS RM RN RT RMe d dm { rest := t ++ r, calls := cl })
+      (rvOuter ctx RV RS RM RN RT RMe d dm { rest := t, calls := cl }) := by
+  cases t with
+  | nil =>
+    exact CutRes.vac (rvOuter_progress ctx pV pS pM pN pT pMe d dm { rest := [] ++ r, calls := cl }) (by simp)
+  | cons c0 t0 =>
+    unfold rvOuter
+    simp only [List.cons_append]
+    rw [preWs_eq_skipWs, preWs_eq_skipWs]
+    cases hb : skipWs (c0 :: (t0 ++ r)) with
+    | nil => simp only [eofErrOf]; trivial
+    | cons c csb =>
+      simp only []
+      apply CutRes.of_le
+      intro hle
+      have hp := rvStep_progress ctx (RV := RV) (RS := RS) (RM := RM) (RN := RN) (RT := RT) (RMe := RMe)
+        pV pS pM pN pT pMe d dm cl c csb
+      have hcut := skipWs_cut (c0 :: t0) r (by
+        rw [List.cons_append, hb]
+        have := hp.st_le
+        simp only [List.length_cons] at this ⊢
+        omega)
+      rw [List.cons_append, hb] at hcut
+      cases hs : skipWs (c0 :: t0) with
+      | nil =>
+        rw [hs] at hcut
+        simp only [List.nil_append] at hcut
+        exact CutRes.vac hp (by rw [hcut]; exact Nat.le_refl _)
+      | cons c' cs' =>
+        rw [hs] at hcut
+        simp only [List.cons_append, List.cons.injEq] at hcut
+        obtain ⟨rfl, rfl⟩ := hcut
+        simp only []
+        exact rvStep_cut ctx pV pS pN sN kV kS kM kN kT kMe d dm cl c cs' r
+
+/-! ## the induction -/
+
+theorem rnStep_strict (ctx : Ctx) {RV : RVT} {RM : RMT} (pV : PV RV) (pM : PM RM)
+    (d : Nat) (dm : Bool) (start : Nat) (st : St) (v : Val) (st' : St)
+    (h : rnStep ctx RV RM d dm start st = .ok v st') : st'.rest.length < st.rest.length := by
+  unfold rnStep at h
+  have p1 := pV d dm st
+  cases hr : RV d dm st with
+  | closer st1 => rw [hr] at h; cases h
+  | err e st1 => rw [hr] at h; cases h
+  | ok kwv st1 =>
+    rw [hr] at h p1; simp only [Progress] at p1
+    simp only [] at h
+    have hws := skipWs_length_le' st1.rest
+    split at h
+    · split at h
+      · rename_i c rr heq
+        rw [heq] at hws; simp only [List.length_cons] at hws
+        split at h
+        · rename_i name _ _
+          have := pM d dm start (some name) { rest := rr, calls := st1.calls } [] []
+          rw [h] at this
+          simp only [Res.st] at this
+          omega
+        · cases h
+      · cases h
+    · cases h
+
+theorem readNsMap_strict (ctx : Ctx) (f : Nat) : SN4 (readNsMap ctx f) := by
+  intro d dm start st v st' h
+  cases f with
+  | zero => rw [readNsMap_zero] at h; cases h
+  | succ f =>
+    obtain ⟨pV, -, pM, -, -, -⟩ := reader_progress' ctx f
+    rw [readNsMap_succ] at h
+    exact rnStep_strict ctx pV pM _ _ _ _ _ _ h
+
+/-- continuation independence for all six mutually recursive functions, for every fuel -/
+theorem reader_cut (ctx : Ctx) (hreg : ctx.opts.registry = none) : ∀ (f : Nat),
+    KV (readValue ctx f) ∧ KS (readSeq ctx f) ∧ KM (readMap ctx f) ∧ K4 (readNsMap ctx f) ∧
+    K4 (readTagged ctx f) ∧ K4 (readMeta ctx f) := by
+  intro f
+  induction f with
+  | zero =>
+    refine ⟨?_, ?_, ?_, ?_, ?_, ?_⟩
+    · intro d dm t r cl; rw [readValue_zero]; trivial
+    · intro d dm kind start t r cl acc; rw [readSeq_zero]; trivial
+    · intro d dm start ns t r cl ks vs; rw [readMap_zero]; trivial
+    · intro d dm start t r cl; rw [readNsMap_zero]; trivial
+    · intro d dm start t r cl; rw [readTagged_zero]; trivial
+    · intro d dm start t r cl; rw [readMeta_zero]; trivial
+  | succ f ih =>
+    obtain ⟨kV, kS, kM, kN, kT, kMe⟩ := ih
+    obtain ⟨pV, pS, pM, pN, pT, pMe⟩ := reader_progress' ctx f
+    have nV : NV (readValue ctx f) := by
+      intro d dm st v st' h
+      have q := (reader_post ctx f).1 d dm st
+      rw [h] at q
+      exact (q hreg).nsyn
+    have sN := readNsMap_strict ctx f
+    refine ⟨?_, ?_, ?_, ?_, ?_, ?_⟩
+    · intro d dm t r cl; rw [readValue_succ, readValue_succ]
+      exact rvOuter_cut ctx pV pS pM pN pT pMe sN kV kS kM kN kT kMe d dm t r cl
+    · intro d dm kind start t r cl acc; rw [readSeq_succ, readSeq_succ]
+      exact rsStep_cut ctx pV pS kV kS d dm kind start t r cl acc
+    · intro d dm start ns t r cl ks vs; rw [readMap_succ, readMap_succ]
+      exact rmStep_cut ctx pV pM kV kM d dm start ns t r cl ks vs
+    · intro d dm start t r cl; rw [readNsMap_succ, readNsMap_succ]
+      exact rnStep_cut ctx pV pM kV kM d dm start t r cl
+    · intro d dm start t r cl; rw [readTagged_succ, readTagged_succ]
+      exact rtStep_cut ctx hreg pV kV d dm start t r cl
+    · intro d dm start t r cl; rw [readMeta_succ, readMeta_succ]
+      exact rmeStep_cut ctx pV nV kV d dm start t r cl
+
+/-- the cut property of `readValue`, unfolded -/
+theorem readValue_cut_gen (ctx : Ctx) (hreg : ctx.opts.registry = none) (f d : Nat) (dm : Bool) (t r : Bytes)
+    (cl : List Call) (v : Val) (st' : St)
+    (h : readValue ctx f d dm { rest := t ++ r, calls := cl } = .ok v st') (hl : r.length ≤ st'.rest.length) :
+    ∃ t' v', st' = { rest := t' ++ r, calls := cl } ∧
+      readValue ctx f d dm { rest := t, calls := cl } = .ok v' { rest := t', calls := cl } ∧ shiftV r.length v' = v := by
+  have k := (reader_cut ctx hreg f).1 d dm t r cl
+  rw [h] at k
+  exact k hl
+
+/-- what a successful read leaves is a suffix of what it started from; the call log is untouched -/
+theorem readValue_rest_suffix (ctx : Ctx) (hreg : ctx.opts.registry = none) (f d : Nat) (dm : Bool) (st st' : St) (v : Val)
+    (h : readValue ctx f d dm st = .ok v st') : st'.rest <:+ st.rest ∧ st'.calls = st.calls := by
+  have hp := (reader_progress' ctx f).1 d dm st
+  rw [h] at hp; simp only [Progress] at hp
+  obtain ⟨s, cl⟩ := st
+  simp only [] at hp ⊢
+  generalize hn : st'.rest.length = n at hp
+  have hsplit : s = s.take (s.length - n) ++ s.drop (s.length - n) := (List.take_append_drop _ _).symm
+  rw [hsplit] at h
+  have hlen : (s.drop (s.length - n)).length = n := by
+    simp only [List.length_drop]; omega
+  obtain ⟨t', v', hst, -, -⟩ := readValue_cut_gen ctx hreg f d dm _ _ cl v st' h (by omega)
+  subst hst
+  simp only [List.length_append] at hn
+  have : t' = [] := List.eq_nil_of_length_eq_zero (by omega)
+  subst this
+  exact ⟨by simp only [List.nil_append]; exact List.drop_suffix _ _, rfl⟩
 
 end Edn.Proofs
